@@ -1606,4 +1606,357 @@ def unembed (d : UnDoc) : Doc := { blocks := d.items.map fun it => .para {} (une
 
 def unnoExtraBlanks (d : UnDoc) : Bool := d.trail == 0 && d.items.all fun it => it.gap == 0
 
+/-! ## stage 21: the union fragment (stage 13, with indented code blocks) with ALL inline atoms in its rich lines
+
+  The block structure of stage 13 (paragraphs, ATX headings, thematic breaks, fenced code blocks, indented code blocks;
+  the rules of `uabutOK` / `usepsOK`), where a paragraph line / a heading text is a line of text atoms alternating with
+  ANY of the other atoms of the stages: code spans (8), `*x*` / `**x**` (11), `_x_` / `__x__` (20), inline links
+  `[t](d)` (16), images `![t](d)` (17), URI autolinks `<s:r>` (18), raw inline tags `<n>` / `</n>` (19). The line begins
+  and ends with text as in stage 11 (`elineOKS`); around an UNDERSCORE emphasis atom the source bytes of the neighbouring
+  text are white space or punctuation as in stage 20 (`unbeforeOK` / `unafterOK`). A paragraph line that is not the last
+  may end with a backslash hard break (stage 9). -/
+
+inductive FAtomS where
+  | txt (cs : List TChar)              -- text, every character in any licensed spelling
+  | code (content : Bytes)             -- a code span
+  | em (content : Bytes)               -- `*content*`
+  | strong (content : Bytes)           -- `**content**`
+  | uem (content : Bytes)              -- `_content_`
+  | ustrong (content : Bytes)          -- `__content__`
+  | link (text dest : Bytes)           -- `[text](dest)`
+  | img (alt dest : Bytes)             -- `![alt](dest)`
+  | auto (scheme rest : Bytes)         -- `<scheme:rest>`
+  | otag (name : Bytes)                -- `<name>`
+  | ctag (name : Bytes)                -- `</name>`
+deriving Repr, Inhabited
+
+abbrev FLineA21 := List FAtomS
+
+def FAtomS.isTxt : FAtomS → Bool
+  | .txt _ => true
+  | _ => false
+
+/-- underscore emphasis: its neighbours matter -/
+def FAtomS.isUnder : FAtomS → Bool
+  | .uem _ => true
+  | .ustrong _ => true
+  | _ => false
+
+def f21atomOKS : FAtomS → Bool
+  | .txt cs => !cs.isEmpty && cs.all charOK
+  | .code content => !content.isEmpty && content.all isAlnumC
+  | .em content => !content.isEmpty && content.all isAlnumC
+  | .strong content => !content.isEmpty && content.all isAlnumC
+  | .uem content => !content.isEmpty && content.all isAlnumC
+  | .ustrong content => !content.isEmpty && content.all isAlnumC
+  | .link text dest => !text.isEmpty && text.all isAlnumC && !dest.isEmpty && dest.all isDestC
+  | .img alt dest => !alt.isEmpty && alt.all isAlnumC && !dest.isEmpty && dest.all isDestC
+  | .auto scheme rest =>
+    decide (2 ≤ scheme.length) && decide (scheme.length ≤ 32) && scheme.all isLetter && !rest.isEmpty && rest.all isAutoC
+  | .otag n => tagNameOK19 n
+  | .ctag n => tagNameOK19 n
+
+/-- text atoms and the other atoms alternate -/
+def f21alternatingS : List FAtomS → Bool
+  | a :: b :: rest => (a.isTxt != b.isTxt) && f21alternatingS (b :: rest)
+  | _ => true
+
+/-- two neighbouring atoms (as `unpairOK`): text in front of an underscore emphasis atom ends, text behind one begins
+    with a character whose outer source byte is white space or punctuation -/
+def f21pairOK (a b : FAtomS) : Bool :=
+  (match a with
+   | .txt cs => !b.isUnder || (match cs.getLast? with | some t => unbeforeOK t | none => false)
+   | _ => true) &&
+  (match b with
+   | .txt cs => !a.isUnder || (match cs.head? with | some t => unafterOK t | none => false)
+   | _ => true)
+
+def f21neighOK : List FAtomS → Bool
+  | a :: b :: rest => f21pairOK a b && f21neighOK (b :: rest)
+  | _ => true
+
+/-- the first atom is text that begins with a literal letter -/
+def f21firstOKS (l : List FAtomS) : Bool :=
+  match l with
+  | .txt (t :: _) :: _ => firstOK t
+  | _ => false
+
+/-- the last atom is text that ends with a literal letter or digit -/
+def f21lastOKS (l : List FAtomS) : Bool :=
+  match l.getLast? with
+  | some (.txt cs) => (match cs.getLast? with | some z => lastOK z | none => false)
+  | _ => false
+
+def f21lineOKS (l : List FAtomS) : Bool :=
+  f21alternatingS l && f21firstOKS l && f21lastOKS l && l.all f21atomOKS && f21neighOK l
+
+/-- a paragraph line and whether a hard line break (a backslash) follows it -/
+structure FLineS21 where
+  atoms : List FAtomS
+  hard : Bool := false
+deriving Repr, Inhabited
+
+inductive FBlockS21 where
+  | para (lines : List FLineS21)
+  | heading (level : Nat) (text : List FAtomS)
+  | thematic (c n : Nat)
+  | fcode (tilde : Bool) (n : Nat) (info : Bytes) (lines : List Bytes)
+  | icode (lines : List Bytes)
+deriving Repr, Inhabited
+
+structure F21Item where
+  sep : Nat := 0
+  block : FBlockS21
+deriving Repr, Inhabited
+
+structure F21Doc where
+  items : List F21Item
+  trail : Nat := 0
+deriving Repr, Inhabited
+
+def f21lastSoftS (ls : List FLineS21) : Bool :=
+  match ls.getLast? with
+  | some z => !z.hard
+  | none => false
+
+def FBlockS21.isIc : FBlockS21 → Bool
+  | .icode _ => true
+  | _ => false
+
+def FAtomS.isEmph : FAtomS → Bool
+  | .em _ => true
+  | .strong _ => true
+  | .uem _ => true
+  | .ustrong _ => true
+  | _ => false
+
+def FAtomS.isLinkImg : FAtomS → Bool
+  | .link _ _ => true
+  | .img _ _ => true
+  | _ => false
+
+/-- a former restriction of the stage-21 theorem on the lines of one paragraph (no hard break; not both emphasis atoms and
+    link / image atoms in one paragraph): LIFTED — the inline proof covers the full mix — so the function is constantly
+    `true` and `f21blockOKS` coincides with `f21blockOKW`; kept as the one place where a restriction would go. -/
+def f21restrS (_lines : List FLineS21) : Bool := true
+
+/-- the blocks without the restriction `f21restrS` -/
+def f21blockOKW : FBlockS21 → Bool
+  | .icode lines => !lines.isEmpty && lines.all icLineOK
+  | .para lines => !lines.isEmpty && (lines.all fun x => f21lineOKS x.atoms) && f21lastSoftS lines
+  | .heading level text => decide (1 ≤ level) && decide (level ≤ 6) && f21lineOKS text
+  | .thematic _ _ => true
+  | .fcode tilde _ info lines => info.all isAlnumC && lines.all (codeLineOK (fenceChar tilde))
+
+def f21blockOKS : FBlockS21 → Bool
+  | .icode lines => !lines.isEmpty && lines.all icLineOK
+  | .para lines =>
+    !lines.isEmpty && (lines.all fun x => f21lineOKS x.atoms) && f21lastSoftS lines && f21restrS lines
+  | .heading level text =>
+    decide (1 ≤ level) && decide (level ≤ 6) && f21lineOKS text && f21restrS [{ atoms := text, hard := false }]
+  | .thematic _ _ => true
+  | .fcode tilde _ info lines => info.all isAlnumC && lines.all (codeLineOK (fenceChar tilde))
+
+/-- may `b` follow `a` without a blank line? (as `uabutOK`) -/
+def f21abutOK (a b : FBlockS21) : Bool :=
+  match a with
+  | .para _ =>
+    (match b with
+     | .heading _ _ => true
+     | .thematic c _ => c % 3 != 1
+     | .fcode _ _ _ _ => true
+     | .para _ => false
+     | .icode _ => false)
+  | _ => true
+
+/-- as `usepsOK` -/
+def f21sepsOK : Option FBlockS21 → List F21Item → Bool
+  | _, [] => true
+  | none, it :: rest => f21sepsOK (some it.block) rest
+  | some a, it :: rest =>
+    (it.sep != 0 || f21abutOK a it.block) && !(a.isIc && it.block.isIc) && f21sepsOK (some it.block) rest
+
+def f21fragB (d : F21Doc) : Bool := (d.items.all fun it => f21blockOKS it.block) && f21sepsOK none d.items
+
+/-- the fragment without the restriction `f21restrS` (what the tie also compares with goldmark) -/
+def f21fragWB (d : F21Doc) : Bool := (d.items.all fun it => f21blockOKW it.block) && f21sepsOK none d.items
+
+def F21Frag (d : F21Doc) : Prop := f21fragB d = true
+
+instance (d : F21Doc) : Decidable (F21Frag d) := by unfold F21Frag; infer_instance
+
+/-- the last block is not an indented code block -/
+def f21lastNotIc (d : F21Doc) : Bool :=
+  match d.items.getLast? with
+  | some it => !it.block.isIc
+  | none => true
+
+def f21fragEB (d : F21Doc) : Bool := f21fragB d && d.trail == 0 && !d.items.isEmpty && f21lastNotIc d
+
+def F21FragE (d : F21Doc) : Prop := f21fragEB d = true
+
+instance (d : F21Doc) : Decidable (F21FragE d) := by unfold F21FragE; infer_instance
+
+def spellFAtom : FAtomS → Bytes
+  | .txt cs => escSpell cs
+  | .code content => [96] ++ content ++ [96]
+  | .em content => [42] ++ content ++ [42]
+  | .strong content => [42, 42] ++ content ++ [42, 42]
+  | .uem content => [95] ++ content ++ [95]
+  | .ustrong content => [95, 95] ++ content ++ [95, 95]
+  | .link text dest => [91] ++ text ++ [93, 40] ++ dest ++ [41]
+  | .img alt dest => [33, 91] ++ alt ++ [93, 40] ++ dest ++ [41]
+  | .auto scheme rest => [60] ++ autoUri scheme rest ++ [62]
+  | .otag n => [60] ++ n ++ [62]
+  | .ctag n => [60, 47] ++ n ++ [62]
+
+/-- the source bytes of one rich line, without its line ending -/
+def spellFLineA (l : List FAtomS) : Bytes := l.flatMap spellFAtom
+
+def spellFLine21 (x : FLineS21) : Bytes := if x.hard then spellFLineA x.atoms ++ [92] else spellFLineA x.atoms
+
+def spellFBlock21 : FBlockS21 → Bytes
+  | .para lines => lines.flatMap fun x => spellFLine21 x ++ [10]
+  | .heading level text => List.replicate level 35 ++ [32] ++ spellFLineA text ++ [10]
+  | .thematic c n => thematicLine c n false ++ [10]
+  | .fcode tilde n info lines =>
+    List.replicate (n + 3) (fenceChar tilde) ++ info ++ [10] ++ lines.flatMap (· ++ [10]) ++
+      List.replicate (n + 3) (fenceChar tilde) ++ [10]
+  | .icode lines => lines.flatMap fun l => [32, 32, 32, 32] ++ l ++ [10]
+
+/-- the Markdown source of a stage-21 document -/
+def spellF21 (d : F21Doc) : Bytes :=
+  (d.items.flatMap fun it => blanks it.sep ++ spellFBlock21 it.block) ++ blanks d.trail
+
+/-- the Markdown source without the final line feed -/
+def spellF21E (d : F21Doc) : Bytes := (spellF21 d).dropLast
+
+def expFAtom : FAtomS → Bytes
+  | .txt cs => escHtml (plain cs)
+  | .code content => strBytes "<code>" ++ escHtml content ++ strBytes "</code>"
+  | .em content => strBytes "<em>" ++ escHtml content ++ strBytes "</em>"
+  | .strong content => strBytes "<strong>" ++ escHtml content ++ strBytes "</strong>"
+  | .uem content => strBytes "<em>" ++ escHtml content ++ strBytes "</em>"
+  | .ustrong content => strBytes "<strong>" ++ escHtml content ++ strBytes "</strong>"
+  | .link text dest => strBytes "<a href=\"" ++ dest ++ strBytes "\">" ++ text ++ strBytes "</a>"
+  | .img alt dest => strBytes "<img src=\"" ++ dest ++ strBytes "\" alt=\"" ++ alt ++ strBytes "\" />"
+  | .auto scheme rest =>
+    strBytes "<a href=\"" ++ autoUri scheme rest ++ strBytes "\">" ++ autoUri scheme rest ++ strBytes "</a>"
+  | .otag n => [60] ++ n ++ [62]
+  | .ctag n => [60, 47] ++ n ++ [62]
+
+def expFLineA (l : List FAtomS) : Bytes := l.flatMap expFAtom
+
+/-- the HTML between `<p>` and `</p>` (as `expULines`) -/
+def expFLines21 : List FLineS21 → Bytes
+  | [] => []
+  | [x] => expFLineA x.atoms
+  | x :: rest => expFLineA x.atoms ++ (if x.hard then strBytes "<br />\n" else [10]) ++ expFLines21 rest
+
+def expFBlock21 : FBlockS21 → Bytes
+  | .para lines => strBytes "<p>" ++ expFLines21 lines ++ strBytes "</p>\n"
+  | .heading level text =>
+    strBytes "<h" ++ [UInt8.ofNat (48 + level)] ++ [62] ++ expFLineA text ++ strBytes "</h" ++
+      [UInt8.ofNat (48 + level)] ++ strBytes ">\n"
+  | .thematic _ _ => strBytes "<hr />\n"
+  | .fcode _ _ info lines =>
+    strBytes "<pre><code" ++ (if info.isEmpty then [] else strBytes " class=\"language-" ++ info ++ [34]) ++ [62] ++
+      lines.flatMap (fun l => escHtml l ++ [10]) ++ strBytes "</code></pre>\n"
+  | .icode lines => strBytes "<pre><code>" ++ lines.flatMap (fun l => escHtml l ++ [10]) ++ strBytes "</code></pre>\n"
+
+/-- the HTML the specification prescribes for a stage-21 document -/
+def expectedF21 (d : F21Doc) : Bytes := d.items.flatMap fun it => expFBlock21 it.block
+
+/-- the spec-model inline of an atom (emphasis with the delimiter it is written with) -/
+def f21embedAtom : FAtomS → Inline
+  | .txt cs => .text cs
+  | .code content => .code content 0 false
+  | .em content => .emph false [.text (elits content)]
+  | .strong content => .strong false [.text (elits content)]
+  | .uem content => .emph true [.text (elits content)]
+  | .ustrong content => .strong true [.text (elits content)]
+  | .link text dest => .link [.text (elits text)] dest none [] {}
+  | .img alt dest => .image [.text (elits alt)] dest none [] {}
+  | .auto scheme rest => .autolink (autoUri scheme rest) false
+  | .otag n => .rawHtml ([60] ++ n ++ [62])
+  | .ctag n => .rawHtml ([60, 47] ++ n ++ [62])
+
+def f21embedLines : List FLineS21 → List Inline
+  | [] => []
+  | [x] => x.atoms.map f21embedAtom
+  | x :: rest => x.atoms.map f21embedAtom ++ (if x.hard then .hardBreak true 0 else .softBreak) :: f21embedLines rest
+
+def f21embedBlock (abut : Bool) : FBlockS21 → Block
+  | .para lines => .para { abut := abut } (f21embedLines lines) 0
+  | .heading level text => .heading { abut := abut } level false 0 0 (text.map f21embedAtom)
+  | .thematic c n => .thematic { abut := abut } c n false
+  | .fcode tilde n info lines => .fcode { abut := abut } tilde n 0 0 info 0 lines
+  | .icode lines => .icode lines
+
+def f21embed (d : F21Doc) : Doc := { blocks := d.items.map fun it => f21embedBlock (it.sep == 0) it.block }
+
+/-- the spec-model document with the choice "no final line ending" -/
+def f21embedE (d : F21Doc) : Doc := { f21embed d with finalNewline := false }
+
+/-- as `unoExtraBlanks` -/
+def f21noExtraBlanksFrom : Option FBlockS21 → List F21Item → Bool
+  | _, [] => true
+  | none, it :: rest => it.sep == 0 && f21noExtraBlanksFrom (some it.block) rest
+  | some a, it :: rest =>
+    it.sep ≤ 1 && (!(a.isIc || it.block.isIc) || it.sep == 1) && f21noExtraBlanksFrom (some it.block) rest
+
+def f21noExtraBlanks (d : F21Doc) : Bool := d.trail == 0 && f21noExtraBlanksFrom none d.items
+
+/-! ### stage 22: the WIDER class of quoted contents (block-quote simulation with lists and blank lines)
+
+  The contents of the (nested) block quotes of stages 10 / 14 / 15 may now contain `-`, `*`, `+` and digits: the
+  source must contain no tab, no carriage return and no `[` (`gqcleanByte`), and NO LINE may have `-` or `=` as its
+  last byte that is not white space (`noBarEnd`: no rest of a line is a setext heading underline). Spelling and
+  prescribed HTML are unchanged: `spellNQ k d` / `expectedNQ k d`, `quoteLinesN (k + 1) (spellU d)` /
+  `wrapQ (k + 1) (expectedU d)`. -/
+
+def gqcleanByte (c : UInt8) : Bool := c != 9 && c != 13 && c != 91
+
+/-- the byte may end a line: it is neither `-` nor `=` -/
+def gqEndOK (l : UInt8) : Bool := l != 45 && l != 61
+
+/-- `noBarEnd` with the last byte of the current line that is not white space (space, tab, carriage return) as state;
+    `0` at the start of a line -/
+def noBarEndGo : Bytes → UInt8 → Bool
+  | [], l => gqEndOK l
+  | c :: cs, l =>
+    if c == 10 then gqEndOK l && noBarEndGo cs 0
+    else noBarEndGo cs (if c == 32 || c == 9 || c == 13 then l else c)
+
+/-- no line of the source (lines are separated by the byte 10) has `-` or `=` as its last byte that is not white space -/
+def noBarEnd (s : Bytes) : Bool := noBarEndGo s 0
+
+def gqfragB (d : KDoc) : Bool :=
+  kfragB d && !d.items.isEmpty && (spellK d).all gqcleanByte && noBarEnd (spellK d)
+
+def GQFrag (d : KDoc) : Prop := gqfragB d = true
+
+instance (d : KDoc) : Decidable (GQFrag d) := by unfold GQFrag; infer_instance
+
+def guqfragB (d : UDocS) : Bool :=
+  ufragB d && !d.items.isEmpty && (d.items.all fun it => !it.block.isIc) && (spellU d).all gqcleanByte &&
+    noBarEnd (spellU d)
+
+def GUQFrag (d : UDocS) : Prop := guqfragB d = true
+
+instance (d : UDocS) : Decidable (GUQFrag d) := by unfold GUQFrag; infer_instance
+
+/-! ### stage 23: a stage-21 document (all inline atoms) inside `k + 1` nested block quotes, the wider class of stage 22
+
+  Spelling `quoteLinesN (k + 1) (spellF21 d)`, prescribed HTML `wrapQ (k + 1) (expectedF21 d)`. `gqcleanByte` excludes `[`,
+  so link and image atoms cannot occur; autolinks, raw tags, code spans, `*` / `_` emphasis can. No indented code block. -/
+
+def gf21qfragB (d : F21Doc) : Bool :=
+  f21fragB d && !d.items.isEmpty && (d.items.all fun it => !it.block.isIc) && (spellF21 d).all gqcleanByte &&
+    noBarEnd (spellF21 d)
+
+def GF21QFrag (d : F21Doc) : Prop := gf21qfragB d = true
+
+instance (d : F21Doc) : Decidable (GF21QFrag d) := by unfold GF21QFrag; infer_instance
+
 end GM.Spec.CMFrag
